@@ -34,6 +34,12 @@ impl<T> Timer<T> {
         self.current.is_none() && self.queue.is_empty()
     }
 
+    /// Number of scheduled timeouts (verification hook).
+    #[cfg(btdht_verif)]
+    pub fn len(&self) -> usize {
+        self.queue.len() + usize::from(self.current.is_some())
+    }
+
     pub fn schedule_in(&mut self, deadline: Duration, value: T) -> Timeout {
         self.schedule_at(Instant::now() + deadline, value)
     }
